@@ -99,6 +99,8 @@ class Gen:
             n[:-1] + "?", n[:1] + "*", "*" + n[-1:] + "!*@*", n + "x", "x" + n + "!*@*",
             "*!~%sx@*" % us, "*!*@10.*", "%s!~%s@%s*" % (n, us, h), "**%s**!*@*" % n,
             "%s!?%s@*" % (n, us), "%s!~%s@127.?.0.1" % (n, us),
+            # a literal piece after '*' that overlaps itself in the text: the matcher has to back up inside the text
+            "*!*@*" + h[-4:], "*" + h[-3:], "%s!*@*%s" % (n, h[3:]), "*!*@*.0.2",
         ]
         if self.hostile_masks and r.random() < 0.08:
             forms = ["*zzzzzzzzzzzzzzzzzzzzzzzzzzzzzzzzzzzzzzzzzzzzzz", "*!*@*aaaaaaaaaaaaaaaaaaaaaaaaaaaaaaaaaaaaaaaaaaaaa*",
@@ -169,7 +171,9 @@ class Gen:
         h = self.halves()
         if not h:
             return None
-        users = ["hf", "hf2"] + [n for n, (pw_, m_) in self.m.cfg.users.items() if m_] * 2
+        # plain user names, accounts whose mask refuses this host, and accounts anybody may log in to (no password, no
+        # mask): being a verified account does not make a late claim to a taken nickname any better
+        users = ["hf", "hf2"] + [n for n, (pw_, m_) in self.m.cfg.users.items() if m_ or not pw_] * 2
         return ("half_complete", self.r.choice(h), self.r.choice(users))
 
     def g_half_probe(self, live):
